@@ -324,3 +324,21 @@ func InjectNilOneof(p proto.Message, fd protoreflect.FieldDescriptor) bool {
 	}
 	return false
 }
+
+// InjectTypedNilOneof makes the oneof that fd belongs to hold a nil pointer of fd's wrapper type (the state
+// x.Oneof = (*T_Member)(nil) builds; protobuf-go reads it as "oneof not set"). fd must be a oneof member of message kind.
+func InjectTypedNilOneof(p proto.Message, fd protoreflect.FieldDescriptor) bool {
+	if !InjectNilOneof(p, fd) {
+		return false
+	}
+	v := reflect.ValueOf(p).Elem()
+	t := v.Type()
+	for i := 0; i < t.NumField(); i++ {
+		if t.Field(i).Tag.Get("protobuf_oneof") == string(fd.ContainingOneof().Name()) {
+			of := v.Field(i)
+			of.Set(reflect.Zero(of.Elem().Type()))
+			return true
+		}
+	}
+	return false
+}
